@@ -1,6 +1,7 @@
 import PenneModel.Sexp
 import PenneModel.Skel
 import PenneModel.Scope.Labels
+import PenneModel.Place.Syntax
 /-
   Model driver: one request per line on stdin (`OP<TAB>payload`), one answer per line on stdout.
   Only model files are imported (no Mathlib, no proof files), so this links as a native executable.
@@ -21,6 +22,11 @@ def handle (op payload : String) : String :=
   | "C04" =>
     match bodyOf payload with
     | some b => "codes=" ++ showCodes (sortNat (Labels.goBody b)) ++ " spec=" ++ showCodes (sortNat (Labels.specBody b))
+    | none => "bad-request"
+  | "C06" =>
+    match bodyOf payload with
+    | some b => "codes=" ++ showCodes (sortNat (Place.chkBody b)) ++ " spec=" ++ showCodes (sortNat (Place.specBody b))
+        ++ " lints=" ++ showCodes (Place.lintBody b) ++ " speclints=" ++ showCodes (Place.specLintBody b)
     | none => "bad-request"
   | _ => "bad-op"
 
